@@ -724,6 +724,17 @@ func (ls *LState) where(level int, skipg bool) string {
 	if !ok {
 		return ""
 	}
+	for lv, frame := level, ls.currentFrame; lv > 0 && frame != nil; frame = frame.Parent {
+		lv--
+		if !frame.Fn.IsG {
+			lv -= frame.TailCall
+		}
+		if lv < 0 {
+			// the level is a lost tail call, which GetStack answers with the bottom frame:
+			// it has no position (luaL_where: currentline is -1)
+			return ""
+		}
+	}
 	cf := dbg.frame
 	proto := cf.Fn.Proto
 	sourcename := "[G]"
